@@ -220,7 +220,21 @@ func (s *Sim) oracleC05(op Op, evs []SIEvent) {
 				want, _ := s.userUsage(un, qp, nil)
 				got := ResFromDAO(t.Queues[qp].ResourceUsage)
 				if !got.Eq(want) {
-					s.violate("C05", "user-usage", ar, "user %s is tracked with %s on %s, the live allocations of its applications there sum to %s", un, got, qp, want)
+					detail := ar
+					// allocations a Failed application left behind on the nodes (known defect, see C03
+					// node-alloc-orphan:app-Failed) stay in the usage of its user as well
+					extra := Res{}
+					for _, n := range s.post.Nodes {
+						for _, al := range n.Allocs {
+							if d := s.post.Done[al.App]; d != nil && (d.State == "Failed" || d.State == "Failing") && d.User == un && (d.Queue == qp || strings.HasPrefix(d.Queue, qp+".")) {
+								extra.AddTo(al.Res)
+							}
+						}
+					}
+					if !extra.IsZero() && got.Eq(want.Add(extra)) {
+						detail = "orphans-of-failed-app"
+					}
+					s.violate("C05", "user-usage", detail, "user %s is tracked with %s on %s, the live allocations of its applications there sum to %s", un, got, qp, want)
 				}
 			}
 		}
